@@ -204,6 +204,8 @@ fn add_sessions(a: &mut SessionsRunStats, s: &SessionsRunStats) {
     a.repeats_in_batch += s.repeats_in_batch;
     a.same_len_variants += s.same_len_variants;
     a.cross_format_pairs += s.cross_format_pairs;
+    a.long_sessions += s.long_sessions;
+    a.soak_runs += s.soak_runs;
     a.skipped_panicking += s.skipped_panicking;
     for m in 0..32 {
         for c in 0..4 {
@@ -690,7 +692,7 @@ fn default_runs(kind: SimKind, tier: &str) -> u64 {
         (SimKind::Terms, "quick") => 120_000,
         (SimKind::Terms, _) => 4_000_000,
         (SimKind::Sessions, "quick") => 60_000,
-        (SimKind::Sessions, _) => 1_500_000,
+        (SimKind::Sessions, _) => 5_000_000,
     }
 }
 
@@ -1182,6 +1184,8 @@ fn evidence_json(opts: &Opts, kind: SimKind, prop: &'static str, agg: &Agg, wall
             fc.push(("same_length_variant_of_previous_request".into(), J::u(s.same_len_variants)));
             fc.push(("interleaved_operation_inside_session".into(), J::u(s.interleaved_steps)));
             fc.push(("nested_session".into(), J::u(s.nested_batches)));
+            fc.push(("long_lived_session_30_to_150_inputs".into(), J::u(s.long_sessions)));
+            fc.push(("soak_run_150_to_500_calls_of_one_entry_point".into(), J::u(s.soak_runs)));
             cov.push(("fault_counts", J::Obj(fc)));
             cov.push(("requests", J::u(s.requests)));
             cov.push(("requests_faulty", J::u(s.requests_faulty)));
